@@ -318,6 +318,22 @@ class Interp:
         self.modconst[key] = val
         return val
 
+    def namedtuples(self):
+        """module-level  Name = namedtuple('Name', ['a', 'b'] | 'a b')  ->  {Name: [fields]}"""
+        if getattr(self, '_namedtuples', None) is None:
+            out = {}
+            for rel, tree in self.repo.trees.items():
+                for st in tree.body:
+                    if isinstance(st, ast.Assign) and len(st.targets) == 1 and isinstance(st.targets[0], ast.Name) and isinstance(st.value, ast.Call) \
+                            and ast.unparse(st.value.func).split('.')[-1] == 'namedtuple' and len(st.value.args) == 2:
+                        fl = st.value.args[1]
+                        if isinstance(fl, (ast.List, ast.Tuple)) and all(isinstance(x, ast.Constant) and isinstance(x.value, str) for x in fl.elts):
+                            out[st.targets[0].id] = [x.value for x in fl.elts]
+                        elif isinstance(fl, ast.Constant) and isinstance(fl.value, str):
+                            out[st.targets[0].id] = fl.value.replace(',', ' ').split()
+            self._namedtuples = out
+        return self._namedtuples
+
     def module_state_names(self):
         """module-level names that some function rebinds (`global x; x = ...`) or changes in place (x[k] = v, x.append(v), ...)"""
         if getattr(self, '_module_state', None) is None:
@@ -454,6 +470,8 @@ class Interp:
             return self.lookup(n.id, fr)
         if isinstance(n, ast.Attribute):
             base = self.ex(n.value, fr)
+            if base[0] == 'tuple' and base in getattr(self, 'ntuple_fields', {}) and n.attr in self.ntuple_fields[base]:
+                return base[1][self.ntuple_fields[base].index(n.attr)]          # field of a namedtuple record
             t = self.load(A(base, n.attr))
             if t == A(base, n.attr):
                 cc = self.class_constant(base, n.attr, fr)
@@ -470,6 +488,15 @@ class Interp:
             return self.load(I(b, self.ex(n.slice, fr)))
         if isinstance(n, ast.BinOp):
             l, r = self.ex(n.left, fr), self.ex(n.right, fr)
+            if isinstance(n.op, ast.Mod) and l[0] == 'const' and isinstance(l[1], str):
+                # 'name_%d' % k  /  '%s_%s' % (a, b): printf-style formatting with plain %d / %s / %i placeholders
+                import re as _re
+                parts = _re.split(r'(%[dsi])', l[1])
+                holes = [p_ for p_ in parts if p_ in ('%d', '%s', '%i')]
+                vals = list(r[1]) if r[0] == 'tuple' else [r]
+                if '%' not in ''.join(p_ for p_ in parts if p_ not in ('%d', '%s', '%i')) and len(holes) == len(vals) and holes:
+                    tmpl = ''.join('{}' if p_ in ('%d', '%s', '%i') else p_.replace('{', '{{').replace('}', '}}') for p_ in parts)
+                    return self.format_template(tmpl, vals)
             if isinstance(n.op, (ast.Div, ast.FloorDiv, ast.Mod)) and self.sink is not None and not is_num(r):
                 self.emit(Eff('div', fr.func, n, num=l, den=r, op=type(n.op).__name__))     # evaluation point of a division
             return BIN(type(n.op).__name__, l, r)
@@ -724,6 +751,13 @@ class Interp:
                     return self.inline(target, fv[1], args, kw, fr, n)
             if fv[0] == 'sym' and fv[1] in self.repo.classes and not (isinstance(f, ast.Name) and f.id == fv[1]):
                 return self.construct(fv[1], args, kw, fr, n)           # a class held in a variable / looked up in a table
+        if isinstance(f, ast.Name) and f.id not in fr.env and f.id in self.namedtuples() and not kw and len(args) == len(self.namedtuples()[f.id]):
+            # Name = namedtuple('Name', [fields]) at module level: a record is the tuple of its fields
+            rec = ('tuple', tuple(args))
+            if not hasattr(self, 'ntuple_fields'):
+                self.ntuple_fields = {}
+            self.ntuple_fields[rec] = self.namedtuples()[f.id]
+            return rec
         if isinstance(f, ast.Name) and f.id == 'compress' and f.id not in fr.env and len(args) == 2 and not kw:
             # itertools.compress(data, selectors) = [data[k] for k in range(len(data)) if selectors[k]]
             data, sel = args
@@ -1105,6 +1139,9 @@ class Interp:
             if isinstance(t, ast.Name):
                 if t.id not in fr.env:
                     raise Unknown('augassign to undefined ' + t.id)
+                if op == 'Add' and self.deref(fr.env[t.id]) in self.lp_problems:
+                    self.lp_add(self.deref(fr.env[t.id]), v, fr, s)          # prob = self.prob; prob += constraint  (LpProblem.__iadd__ returns self)
+                    return
                 self.accumulate(t.id, {'Add': 'add', 'Sub': 'sub'}.get(op, op), None, v, fr, s)
                 return
             if isinstance(t, ast.Subscript) and isinstance(t.value, ast.Name) and t.value.id in fr.env \
@@ -1319,6 +1356,16 @@ class Interp:
         elif c2 in ('continue', 'break') and not c1:
             self._left = (e2, h2)
         self.emit(Eff('if', fr.func, s, cond=c, then=b1, orelse=b2, ctrl=(c1, c2)))
+
+    def only_added_to(self, name, stmts):
+        """every binding of name in stmts is `name += ...` (for an LpProblem: constraints added to the same object)"""
+        for st in stmts:
+            for n in ast.walk(st):
+                if isinstance(n, ast.Name) and n.id == name and isinstance(n.ctx, (ast.Store, ast.Del)):
+                    par_ok = any(isinstance(p, ast.AugAssign) and p.target is n and isinstance(p.op, ast.Add) for p in ast.walk(st))
+                    if not par_ok:
+                        return False
+        return True
 
     def modified_names(self, stmts):
         names = set()
@@ -1537,7 +1584,8 @@ class Interp:
         pre = dict(fr.env)
         mods = self.modified_names(s.body)
         carried = [k for k in mods if k in pre and fr.defdepth.get(k, 0) <= fr.loopdepth
-                   and not (pre[k][0] in ('attr', 'sym') and self.only_mutated_in_place(k, s.body))]   # a name for a heap object: its in-place updates are heap effects
+                   and not (pre[k][0] in ('attr', 'sym') and self.only_mutated_in_place(k, s.body))   # a name for a heap object: its in-place updates are heap effects
+                   and not (self.deref(pre[k]) in self.lp_problems and self.only_added_to(k, s.body))]   # prob += constraint: the same LpProblem, extended
         for k in carried:
             fr.env[k] = ('carried', k, lid)
         fr.loopdepth += 1
@@ -1724,7 +1772,8 @@ class Interp:
         wid = next(self.ids)
         pre = dict(fr.env)
         mods = self.modified_names(s.body)
-        carried = [k for k in mods if k in pre and fr.defdepth.get(k, 0) <= fr.loopdepth]
+        carried = [k for k in mods if k in pre and fr.defdepth.get(k, 0) <= fr.loopdepth
+                   and not (self.deref(pre[k]) in self.lp_problems and self.only_added_to(k, s.body))]
         for k in carried:
             fr.env[k] = ('carried', k, wid)
         self.havoc_heap(s.body)
